@@ -10,6 +10,7 @@ import (
 // ---- file-system model (harness level): *os.File values are identities, contents live in vFiles ----
 
 type vFile struct {
+	shared  *vFile // for handles on a named file: the file itself (content lives there)
 	name    string
 	data    []byte
 	off     int
@@ -57,9 +58,32 @@ func stubFileWrite(f *os.File, p []byte) (int, error) {
 	if vf.closed {
 		return 0, errVClosed
 	}
+	if vf.shared != nil {
+		// write at this handle's offset into the shared file; a crash inside the write leaves a truncated document
+		if vCrashAfter >= 0 && vFSOps == vCrashAfter {
+			vf.shared.data = append(append([]byte{}, vf.shared.data[:vMin(vf.off, len(vf.shared.data))]...), vJSONTruncate(p)...)
+			panic(vCrash{})
+		}
+		vFSOps++
+		d := vf.shared.data
+		if vf.off < len(d) {
+			d = d[:vf.off]
+		}
+		vf.shared.data = append(append([]byte{}, d...), p...)
+		vf.off += len(p)
+		vFSStep()
+		return len(p), nil
+	}
 	vf.data = append(vf.data[:vf.off], p...)
 	vf.off += len(p)
 	return len(p), nil
+}
+
+func vMin(a, b int) int {
+	if a < b {
+		return a
+	}
+	return b
 }
 
 //verif:stub (*os.File).Read
@@ -67,6 +91,15 @@ func stubFileRead(f *os.File, p []byte) (int, error) {
 	vf := vFiles[f]
 	if vf.closed {
 		return 0, errVClosed
+	}
+	if vf.shared != nil {
+		d := vf.shared.data
+		if vf.off >= len(d) {
+			return 0, io.EOF
+		}
+		n := copy(p, d[vf.off:])
+		vf.off += n
+		return n, nil
 	}
 	if vf.off >= len(vf.data) {
 		if len(p) == 0 {
@@ -153,4 +186,51 @@ func vNativeTempFiles() int {
 	}
 	m, _ := filepath.Glob(filepath.Join(os.TempDir(), "proxy-buffer-*"))
 	return len(m)
+}
+
+// --- named files (the state file) ---
+
+var vCreateFails, vOpenFails bool
+var vCrashAfter = -1 // crash point: the process is killed after this many file-system operations (-1: never)
+var vFSOps int
+
+type vCrash struct{}
+
+// vFSStep counts a file-system operation boundary; at the chosen crash point the process dies (panic unwinds to the harness).
+func vFSStep() {
+	if vCrashAfter >= 0 && vFSOps == vCrashAfter {
+		panic(vCrash{})
+	}
+	vFSOps++
+}
+
+//verif:stub os.Create
+func stubOsCreate(name string) (*os.File, error) {
+	vFSStep()
+	if vCreateFails {
+		return nil, errVDisk
+	}
+	vf := vByName[name]
+	if vf == nil || vf.removed {
+		vf = &vFile{name: name}
+		vByName[name] = vf
+	}
+	vf.data = nil // O_TRUNC
+	f := &os.File{}
+	vFiles[f] = &vFile{name: name, shared: vf}
+	return f, nil
+}
+
+//verif:stub os.Open
+func stubOsOpen(name string) (*os.File, error) {
+	vf := vByName[name]
+	if vf == nil || vf.removed {
+		return nil, &os.PathError{Op: "open", Path: name, Err: os.ErrNotExist}
+	}
+	if vOpenFails {
+		return nil, errVDisk
+	}
+	f := &os.File{}
+	vFiles[f] = &vFile{name: name, shared: vf}
+	return f, nil
 }
